@@ -144,6 +144,10 @@ fn ref_forward<S: Scalar>(layers: &[LayerSpec], params: &[[(Vec<usize>, Vec<S>);
                     *relu_margin = relu_margin.min(z.val().abs());
                 }
             }
+            if matches!(aop, Op::Sigmoid | Op::Softmax) && v.iter().any(|z| z.val().abs() > 30.0) {
+                // exponentials out of the range both float widths handle: not judged (treated like the kink)
+                *relu_margin = 0.0;
+            }
             v = eval::<S>(&aop, &[(&d[..], &v[..])]);
         }
         dims = d;
@@ -392,6 +396,7 @@ fn begin(sim: &mut Sim, ev: &Ev) {
 }
 
 fn end(sim: &mut Sim, out: &StepOut) {
+    sim.status_log.push(crate::sim::status_code(out));
     match out {
         StepOut::Done => sim.cnt.executed += 1,
         StepOut::Skipped(_) => sim.cnt.skipped += 1,
